@@ -535,6 +535,16 @@ fn run_seq(a: &Args, hostile: bool) -> Report {
                                 hnd.record(v);
                                 st[i].samples.push(v);
                             }
+                            // now and then a batch through record_many, also an empty one
+                            if r.chance(1, 4) {
+                                let cnt = *r.pick(&[0usize, 0, 1, 3]);
+                                let v = (r.range(-8, 400) as f64) * 0.25;
+                                hnd.record_many(v, cnt);
+                                for _ in 0..cnt {
+                                    st[i].samples.push(v);
+                                }
+                                trace.push(format!("histogram#{} record_many({}, {})", i, v, cnt));
+                            }
                             trace.push(format!("histogram#{} record x{}", i, k));
                         }
                     }
